@@ -10,6 +10,7 @@ import (
 	"verif/internal/driver"
 	"verif/internal/gen"
 	"verif/internal/sched"
+	"verif/internal/vfile"
 )
 
 // C19: lazy loading - opening is O(1) and key-only operations never read values.
@@ -76,6 +77,14 @@ func runC19(ctx *Ctx, idx int) Result {
 	// sweep: every key-only operation over every present key and absent targets, on a cold tree
 	if !e.Failed() && e.S != nil {
 		e.Flush()
+		if r.P(35) {
+			// a CopyTo that fails part way (destination write fault) must not leave the source in a
+			// state in which key-only operations read values
+			e.DstFault = &vfile.Fault{Nth: r.Range(2, 40), Partial: -1}
+			e.CopyTo(-1, r.Range(1, 3))
+			e.DstFault = nil
+			ctx.Stats["c19.failed-copyto-before-sweep"]++
+		}
 		if r.Bool() {
 			e.Reopen(false)
 			c19NothingLoaded(ctx, e)
